@@ -1,12 +1,18 @@
 #!/bin/sh
-# usage: try_seed.sh <seed-dir-with-patch.diff> <CHECK-ID>...   (applies to /repo, runs quick checks, reverts)
+# usage: try_seed.sh <seed-dir-with-patch.diff> <CHECK-ID>...
+# Applies the seeded change to /repo, runs the quick checks, reverts.  The evidence file of the clean tree is
+# put back afterwards (committed evidence must describe runs on the unchanged tree); the evidence of the
+# seeded run is kept next to the seed as evidence_<ID>.json.
 d="$1"; shift
 cd /repo || exit 2
 git diff --quiet || { echo "/repo not clean"; exit 2; }
 git apply "$d/patch.diff" || exit 2
 for id in "$@"; do
   echo "=== $id against $(basename $d)"
+  cp "/verif/evidence/$id.json" "/var/tmp/evidence_$id.clean.$$" 2>/dev/null
   (cd /verif && ./check "$id" --tier quick > "$d/check_$id.log" 2>&1; echo "exit=$?" >> "$d/check_$id.log")
+  cp "/verif/evidence/$id.json" "$d/evidence_$id.json" 2>/dev/null
+  [ -f "/var/tmp/evidence_$id.clean.$$" ] && mv "/var/tmp/evidence_$id.clean.$$" "/verif/evidence/$id.json"
   grep -E "^VIOLATION|^INCONCLUSIVE|^KNOWN|tier=quick|exit=" "$d/check_$id.log" | cut -c1-260 | head -8
 done
 git -C /repo checkout -- .
